@@ -127,12 +127,12 @@ class Builder:
         self.targets[t.out] = t
         return t
 
-    def repo_obj(self, tu, variant):
-        out = os.path.join(self.dir, f"{variant}_{tu}.o")
+    def repo_obj(self, tu, variant, extra=()):
+        out = os.path.join(self.dir, f"{variant}_{tu.replace('/', '_')}.o")
         if out in self.targets:
             return self.targets[out]
         src = os.path.join(self.repo, "src", tu + ".cpp")
-        cmd = [CXX] + COMMON + VARIANTS[variant][0] + repo_inc(self.repo) + ["-c", src, "-o", out]
+        cmd = [CXX] + COMMON + VARIANTS[variant][0] + repo_inc(self.repo) + list(extra) + ["-c", src, "-o", out]
         return self.add(Target(out, cmd, [src] + self.repo_hdrs))
 
     def repo_lib(self, variant):
